@@ -72,3 +72,86 @@ def check_robust(constraints, split_vars=(), bound=None, timeout_ms=8000):
                 allunsat = False
         return ('unsat' if allunsat else 'unknown'), None, t
     return 'unknown', None, t
+
+
+def differ(t1, t2, constraints, split_vars=(), bound=None, timeout_ms=8000):
+    """Is there a model of ``constraints`` with t1 != t2 ?  Syntactically identical terms are answered 'unsat'
+    without a solver call (t != t is unsat by reflexivity); returns (verdict, model, seconds, structural)"""
+    if t1.eq(t2):
+        return 'unsat', None, 0.0, True
+    s1, s2 = z3.simplify(t1), z3.simplify(t2)
+    if s1.eq(s2):
+        return 'unsat', None, 0.0, True
+    r, m, t = check_robust(list(constraints) + [t1 != t2], split_vars, bound, timeout_ms)
+    return r, m, t, False
+
+
+# ---------------------------------------------------------------------------------------------------------------
+# two-pass equivalence proving: Int pass (structure + magnitudes) then, for pure-integer obligations, a signed
+# bit-vector pass sized from the magnitudes (bvsdiv == Fortran/C truncating division), else Int/Real arithmetic.
+
+def bv_value(v):
+    if z3.is_bv_value(v):
+        return v.as_signed_long()
+    return None
+
+
+def model_value2(m, term):
+    v = m.eval(term, model_completion=True)
+    b = bv_value(v)
+    if b is not None:
+        return b
+    return model_value(m, term)
+
+
+MAX_BV_WIDTH = 40
+
+
+def prove_equal(build, real_mode='real', lang='fortran', timeout_ms=8000, extra=None, want_gap=False):
+    r"""build(sem) -> (t1, t2, env) ; env: name -> z3 term of the free variables (created through sem.int_var /
+    sem.real_const / z3.Bool).  Asks: exists valuation. ranges /\ defined /\ t1 != t2.
+    Returns dict(verdict, model, seconds, mode, structural)."""
+    from vlib.fsmt.sem import Sem, NeedIntMode  # pylint: disable=import-outside-toplevel
+    sem = Sem(real_mode, lang=lang)
+    t1, t2, env = build(sem)
+    res = {'mode': 'int', 'structural': False, 'seconds': 0.0, 'model': None}
+    if t1.sort() != t2.sort():
+        if sem.is_bool(t1) or sem.is_bool(t2):
+            res.update(verdict='sat', model={}, why='sort mismatch (logical vs numeric)')
+            return res
+        t1, t2 = sem.to_real(t1), sem.to_real(t2)
+    if t1.eq(t2) or z3.simplify(t1).eq(z3.simplify(t2)):
+        res.update(verdict='unsat', structural=True)
+        return res
+    if not sem.used_real and not sem.unbounded and sem.max_mag.bit_length() + 2 <= MAX_BV_WIDTH:
+        w = max(8, sem.max_mag.bit_length() + 2)
+        sem2 = Sem(real_mode, lang=lang, int_mode='bv', width=w)
+        try:
+            u1, u2, env2 = build(sem2)
+            cs = sem2.ranges + sem2.defined + [u1 != u2] + (extra(sem2, env2) if extra else [])
+            r, m, t = check(cs, timeout_ms * 3, tactic='qfbv')
+            res['seconds'] += t
+            res['mode'] = f'bv{w}'
+            if r != 'unknown':
+                res['verdict'] = r
+                if r == 'sat':
+                    res['model'] = {n: model_value2(m, v) for n, v in env2.items()}
+                    res['v1'], res['v2'] = model_value2(m, u1), model_value2(m, u2)
+                return res
+        except NeedIntMode:
+            pass
+    cs = sem.ranges + sem.defined + (extra(sem, env) if extra else [])
+    r, m, t = check_robust(cs + [t1 != t2], sem.int_vars[:2], None, timeout_ms)
+    res['seconds'] += t
+    res['mode'] = 'int/real'
+    if r == 'sat' and want_gap and not sem.is_bool(t1):
+        d = sem.to_real(t1) - sem.to_real(t2)
+        r2, m2, t2_ = check(cs + [z3.Or(d > z3.RealVal('1/4'), d < -z3.RealVal('1/4'))], timeout_ms)
+        res['seconds'] += t2_
+        if r2 == 'sat':
+            m = m2
+    res['verdict'] = r
+    if r == 'sat':
+        res['model'] = {n: model_value2(m, v) for n, v in env.items()}
+        res['v1'], res['v2'] = model_value2(m, t1), model_value2(m, t2)
+    return res
